@@ -15,7 +15,7 @@ type XC = X<VS, u16>;
 pub fn h_with_ctx<M: VMode>() {
     run::<u8, VS, (), _>(|inp, s0| {
         let k = ch::any_u16();
-        let r = anyp::<SymIn<u8>, XC>(0).with_ctx(k).go::<M>(inp);
+        let r = anyp::<SymIn<u8>, XC>(0).with_ctx(k).gov::<M>(inp);
         let s = snap(inp);
         let a = lg(inp, 0);
         let v = unary_spec(&s0, &s, &a, r.is_ok(), false);
@@ -34,7 +34,7 @@ pub fn h_ctx_nearest<M: VMode>() {
         let (k1, k2) = (ch::any_u16(), ch::any_u16());
         let a = anyp::<SymIn<u8>, XC>(0);
         let b = anyp::<SymIn<u8>, XC>(1);
-        let r = a.with_ctx(k2).then(b).with_ctx(k1).go::<M>(inp);
+        let r = a.with_ctx(k2).then(b).with_ctx(k1).gov::<M>(inp);
         let s = snap(inp);
         let (la, lb) = (lg(inp, 0), lg(inp, 1));
         let v = seq_spec(&s0, &s, &[(0, la), (1, lb)], r.is_ok(), false);
@@ -52,10 +52,10 @@ pub fn h_ctx_from_left<M: VMode, const THEN: bool>() {
         let a = anyp::<SymIn<u8>, X<VS>>(0);
         let b = anyp::<SymIn<u8>, XC>(1);
         let (ok, out_ok) = if THEN {
-            let r = a.then_with_ctx(b).go::<M>(inp);
+            let r = a.then_with_ctx(b).gov::<M>(inp);
             (r.is_ok(), ok_with::<M, _>(&r, (lg(inp, 0).out, lg(inp, 1).out)))
         } else {
-            let r = a.ignore_with_ctx(b).go::<M>(inp);
+            let r = a.ignore_with_ctx(b).gov::<M>(inp);
             (r.is_ok(), ok_with::<M, _>(&r, lg(inp, 1).out))
         };
         let s = snap(inp);
@@ -76,7 +76,7 @@ pub fn h_map_ctx<M: VMode>() {
     run::<u8, VS, (), _>(|inp, s0| {
         let k = ch::any_u16();
         let inner = map_ctx::<_, u16, SymIn<u8>, XC, XC, _>(|c: &u16| c.wrapping_mul(3).wrapping_add(1), anyp::<SymIn<u8>, XC>(0));
-        let r = inner.with_ctx(k).go::<M>(inp);
+        let r = inner.with_ctx(k).gov::<M>(inp);
         let s = snap(inp);
         let a = lg(inp, 0);
         let v = unary_spec(&s0, &s, &a, r.is_ok(), false);
@@ -91,7 +91,7 @@ pub fn h_configure_just<M: VMode>() {
         let (stat, dynamic) = (ch::any_u8(), ch::any_u8());
         let use_cfg = ch::any_bool();
         let p = just::<u8, SymIn<u8>, X<VErr, u8>>(stat).configure(move |cfg: JustCfg<u8>, ctx: &u8| if use_cfg { cfg.seq(*ctx) } else { cfg });
-        let r = p.with_ctx(dynamic).go::<M>(inp);
+        let r = p.with_ctx(dynamic).gov::<M>(inp);
         let s = snap(inp);
         let here = if s0.pos < s0.len { Some(inp.cache.tok_at(s0.pos)) } else { None };
         let want = if use_cfg { dynamic } else { stat };
@@ -155,7 +155,7 @@ pub fn h_nested_in<M: VMode>() {
         let b = anyp::<SymIn<u8>, X<VS>>(0).map(move |_o: u16| SymIn::<u8>::new(len2));
         let mut a = anyp::<SymIn<u8>, X<VS>>(1);
         a.inner = true;
-        let r = a.nested_in(b).go::<M>(inp);
+        let r = a.nested_in(b).gov::<M>(inp);
         let s = snap(inp);
         let (lb, la) = (lg(inp, 0), lg(inp, 1));
         vassert!(lb.called && lb.calls == 1 && lb.entry_pos == s0.pos && lb.entry_sec == s0.nsec, "C16/nested_in.outer-parser-runs-first-from-entry");
@@ -196,7 +196,7 @@ pub fn h_labelled<M: VMode, const CTX: bool>() {
     run::<u8, VErr, (), _>(|inp, s0| {
         let l = ch::any_u16();
         let p = anyp::<SymIn<u8>, X<VErr>>(0).labelled(VLabel(l));
-        let r = if CTX { p.as_context().go::<M>(inp) } else { p.go::<M>(inp) };
+        let r = if CTX { p.as_context().gov::<M>(inp) } else { p.gov::<M>(inp) };
         let s = snap(inp);
         let alt = alt_full(inp);
         let a = lg(inp, 0);
@@ -240,14 +240,14 @@ pub fn h_map_err<M: VMode, const WITH_STATE: bool>() {
                     st.reg[1] = sp.end;
                     e
                 })
-                .go::<M>(inp)
+                .gov::<M>(inp)
         } else {
             child
                 .map_err(|mut e: VErr| {
                     e.mapped = e.mapped.wrapping_add(1);
                     e
                 })
-                .go::<M>(inp)
+                .gov::<M>(inp)
         };
         let s = snap(inp);
         let alt = alt_full(inp);
@@ -291,14 +291,14 @@ pub fn h_with_state<M: VMode>() {
         let g_believed = given.believed;
         let p = anyp_multi::<SymIn<u8>, X<VS>>(0, 2).with_state(given);
         let outer_before = inp.state.believed;
-        let r1 = p.go::<M>(inp);
+        let r1 = p.gov::<M>(inp);
         let first = shared;
         vassert!(first.called && first.entry_pos == s0.pos, "C18/with_state.child-runs-from-the-caller-position");
         vassert!(first.entry_believed == g_believed, "C18/with_state.child-starts-from-a-copy-of-the-given-state");
         vassert!(inp.state.believed == outer_before && !inp.state.log[0].called, "C18/with_state.outer-state-untouched");
         vassert!(r1.is_ok() == first.ok && snap(inp).pos == first.exit_pos, "C18/with_state.result-and-position-of-the-child");
         let s1 = snap(inp);
-        let r2 = p.go::<M>(inp);
+        let r2 = p.gov::<M>(inp);
         let second = shared;
         vcover!(first.ok && second.ok, "with_state: two invocations");
         vassert!(second.entry_pos == s1.pos && second.entry_believed == g_believed, "C18/with_state.fresh-copy-on-every-invocation");
